@@ -180,4 +180,68 @@ PROPS = {
         "assumes": ["shared declination and equation of time for one solar day",
                     "cos(lat)·cos(decl) > 0 (latitude clamped to ±89.8°)"],
     },
+    "C01": {
+        "level_text": "partial: kernel-checked theorems (exact reals) that the hour angle solves the "
+                      "altitude equation with the right sign, that the library's own position kernel "
+                      "returns exactly the target zenith at the event (with the second pass's "
+                      "declination), that the zenith handed in is request + dip + published refraction, "
+                      "and that the sun climbs at rising events and descends at setting ones. Agreement "
+                      "with an independent ephemeris (0.04°…) is not a theorem (DESIGN §9).",
+        "level_note": "Fixed-point residual of the two-pass scheme and the D11 wrap tier are not bounded "
+                      "by a theorem. Oracle search (stage C only): Astronomical-Almanac formulae.",
+        "lean_modules": ["Astral.Props.C01"],
+        "theorems": [
+            "Astral.C01.hourAngle_sound", "Astral.C01.cosZenith_of_degrees",
+            "Astral.C01.zenith_at_hourAngle", "Astral.C01.target_zenith", "Astral.C01.upper_limb",
+            "Astral.C01.fold_elevation", "Astral.C01.direction_sign",
+        ],
+        "groups": [G("corr_sun", "hour_angle", 2500, 60000), G("corr_sun", "transit", 3000, 80000),
+                   G("corr_sun", "sun_events", 3000, 80000), G("corr_sun", "sun_chain", 1400, 30000),
+                   G("corr_sun", "refraction", 1000, 20000)],
+        "unproved": ["agreement with an independent ephemeris within 0.04/0.08/0.3/0.5°",
+                     "two-pass fixed-point residual"],
+        "assumes": ["cos(lat)·cos(decl) ≠ 0 (latitude clamped to ±89.8°)"],
+    },
+    "C04": {
+        "level_text": "partial: kernel-checked theorems (exact reals, the day's declination) that "
+                      "hour_angle succeeds iff the target altitude lies between the day's extreme "
+                      "altitudes, that the domain error occurs exactly when the sun stays on one side "
+                      "all day (and which side), and that date re-matching never discards an event one "
+                      "of its candidates places on the date. The ephemeris margins are not theorems.",
+        "level_note": "Known findings on the unchanged tree: N3 (verdict side for elevated polar "
+                      "observers), D11 (UTC-day wrap hides one rising event per year).",
+        "lean_modules": ["Astral.Props.C01"],
+        "theorems": [
+            "Astral.C01.hourAngle_defined_iff", "Astral.C01.never_reaches_side",
+            "Astral.C01.hourAngle_error_iff", "Astral.C01.rematch_complete",
+        ],
+        "groups": [G("corr_sun", "hour_angle", 2500, 60000), G("corr_sun", "sun_events", 3500, 90000),
+                   G("corr_sun", "transit", 1500, 40000)],
+        "unproved": ["two-sided agreement with the ephemeris inside the 30-minute / 0.6° margins",
+                     "verdict message side when dip + 16' + refraction exceeds half the day's range (N3)"],
+        "assumes": ["one declination for the day"],
+    },
+    "C10": {
+        "level_text": "partial: kernel-checked theorems (exact reals) that the dip is 0 for h ≤ 0, "
+                      "strictly increasing and continuous at 0, that non-positive elevations give "
+                      "exactly the sea-level zenith, that a higher observer's events are earlier/later "
+                      "(refraction off; with refraction whenever the dips differ by ≥ 0.6°), and the "
+                      "sign of the obscuring-feature adjustment; plus the theorem that the feature "
+                      "adjustment is ≥ 45° for 0 < dh ≤ dist (KF-FEATURE).",
+        "level_note": "Known findings: N2 (refraction model non-monotone for dip+16' in "
+                      "[0.575°, 0.57502°]), KF-FEATURE (tuple form is the complement angle).",
+        "lean_modules": ["Astral.Props.C10"],
+        "theorems": [
+            "Astral.C10.dip_nonpos", "Astral.C10.dip_strictMono", "Astral.C10.dip_mono",
+            "Astral.C10.dip_continuousAt_zero", "Astral.C10.sea_level", "Astral.C10.effectiveZenith_flt",
+            "Astral.C10.higher_is_earlier", "Astral.C10.higher_is_earlier_refr",
+            "Astral.C10.feature_zero", "Astral.C10.feature_sign",
+            "Astral.C10.feature_discontinuous_witness",
+        ],
+        "groups": [G("corr_sun", "hour_angle", 3000, 60000), G("corr_sun", "transit", 3000, 80000),
+                   G("corr_geo", "setters", 1500, 30000), G("corr_sun", "sun_events", 1500, 40000)],
+        "unproved": ["monotonicity with refraction inside the 0.6° margin (false at the N2 kink)",
+                     "continuity of the tuple form (false: KF-FEATURE)"],
+        "assumes": ["shared declination"],
+    },
 }
